@@ -241,6 +241,11 @@ fn controlled(ms: usize, mf: usize, rounds: &[RoundIn], pre: &[(usize, usize, bo
     }
     if render_snapshot(&after) != refs[0][n] {
         fails.push("C20:rounds_applied_after_clear_do_not_give_the_whole-rounds_state".to_string());
+        // C05: the statistics after a clear are those of the rounds applied since, under the configured sample limit
+        fails.push("C05:hop_statistics_after_clear_differ_from_the_recomputation_over_the_rounds_since".to_string());
+    }
+    if after.hops().iter().any(|h| h.samples().len() > ms) {
+        fails.push(format!("C05:sample_history_exceeds_the_configured_limit_{ms}_after_clear"));
     }
     // C15 after a clear: more distinct one-hop paths than max_flows must not create more than max_flows flows
     tracer.clear();
